@@ -109,11 +109,12 @@ def _num_to_py(expr):
 # --------------------------------------------------------------------------
 class Sym:
     """Base class of symbolic proxies; ``.z`` is the z3 term."""
-    __slots__ = ('z',)
+    __slots__ = ('z', 'n')
     __array_priority__ = 1000
 
-    def __init__(self, z):
+    def __init__(self, z, n=1):
         self.z = z
+        self.n = n          # rough size of the term (decides whether simplifying it is worth while)
 
     def __repr__(self):
         return '%s(%s)' % (type(self).__name__, self.z)
@@ -377,11 +378,20 @@ def _arith(a, b, op, rev=False):
             r = za - zb * z3.ToReal(z3.ToInt(za / zb))
     else:
         raise ValueError(op)
-    return wrap(z3.simplify(r) if _small(r) else r)
+    n = getattr(a, 'n', 1) + getattr(b, 'n', 1) + 1
+    if n <= SIMPLIFY_LIMIT:
+        out = wrap(z3.simplify(r))
+        if isinstance(out, Sym):
+            out.n = n
+        return out
+    # re-simplifying an ever growing sum at every step is quadratic: leave big terms alone,
+    # and skip the literal checks of wrap() (a big unsimplified term is not a literal)
+    if op == 'truediv' or isinstance(a, (SymReal, Fraction, float)) or isinstance(b, (SymReal, Fraction, float)):
+        return SymReal(r, n)
+    return SymInt(r, n) if z3.is_int(r) else SymReal(r, n)
 
 
-def _small(r):
-    return True
+SIMPLIFY_LIMIT = 60
 
 
 def _cmp(a, b, op):
